@@ -2,6 +2,8 @@ SPECIFICATION GSpec
 CONSTANTS T = 6
  P = 3
  F = 2
+ Guarded = TRUE
+ Kinds = {"exception"}
  Serial = FALSE
  FaultSets <- NoFaults
 INVARIANT Emit
